@@ -8,7 +8,7 @@
    the plan = the operation completed). *)
 From Coq Require Import NArith List Bool.
 From V Require Import Model.Crash Proofs.CrashProofsA Proofs.CrashProofsB Proofs.CrashProofsC Proofs.CrashProofsD Proofs.CrashProofsE
-  Proofs.CrashProofsF Proofs.CrashProofsG Model.CrashShared Proofs.CrashProofsS Proofs.CrashProofsT.
+  Proofs.CrashProofsF Proofs.CrashProofsG Model.CrashShared Proofs.CrashProofsS Proofs.CrashProofsT Proofs.CrashProofsH.
 Import ListNotations.
 Open Scope N_scope.
 
@@ -395,6 +395,22 @@ Proof.
 Qed.
 Print Assumptions shared_rerun_completes.
 
+(* 17. Re-running an insertion that has COMPLETED is a refused no-op: its plan is empty and the state does not change -- put,
+       ingest (copy / move), transfer_from in the step model; put / ingest / multi-ref ingest / ingest_zip (one artifact for
+       the refs l) in the shared model.  In the code the registry refuses a dataset that is already registered and, since
+       /repo 2da36a1, FileDatastore refuses a dataset it already holds BEFORE any file or zip is transferred (before that
+       commit the refusal of a repeated ingest_zip rolled back over the stored zip). *)
+Theorem rerun_of_completed_insertion_noop : forall s o, ovl s = None -> is_insert o = true -> plan s o <> [] ->
+  plan (run_op s o) o = [] /\ run_op (run_op s o) o = run_op s o.
+Proof. exact rerun_completed_insertion_l. Qed.
+Print Assumptions rerun_of_completed_insertion_noop.
+
+Theorem shared_rerun_of_completed_insertion_noop : forall s mv a v l, sstore_ok (sb s) l = true ->
+  let o := SStore mv a v l in
+  splan (srun_op s o) o = [] /\ srun_op (srun_op s o) o = srun_op s o.
+Proof. exact shared_rerun_completed_store_l. Qed.
+Print Assumptions shared_rerun_of_completed_insertion_noop.
+
 (* ---- non-vacuity: the hypotheses are met by reachable, non-trivial states ------------------------------------ *)
 Example ex_bystander :
   let s := run init [Put 0 1; Put 1 2; IngestMove 4] in
@@ -492,3 +508,14 @@ Example ex_shared_rerun :
   /\ has_rec (sb u') 2 = false /\ has_rec (sb u') 3 = false /\ s_trash (sb u') = [] /\ sget u' 0 = GotValue 11
   /\ sget (srun_op s (SPrune [2] [])) 3 = GotValue 102.
 Proof. vm_compute. repeat split. Qed.
+
+Example ex_rerun_completed_zip :
+  let s := srun sinit [SStore false 1 11 [1]] in
+  let o := SStore false 50 7000 [0; 4] in
+  sstore_ok (sb s) [0; 4] = true /\ splan (srun_op s o) o = [] /\ sget (srun_op (srun_op s o) o) 4 = GotValue 7000.
+Proof. vm_compute. repeat split. Qed.
+
+Example ex_rerun_completed_ingest_move :
+  let s := run init [Put 0 1] in
+  plan s (IngestMove 4) <> [] /\ plan (run_op s (IngestMove 4)) (IngestMove 4) = [] /\ get (run_op (run_op s (IngestMove 4)) (IngestMove 4)) 4 = GotValue 104.
+Proof. vm_compute. repeat split. intros H. discriminate. Qed.
